@@ -102,11 +102,11 @@ fn run_variant<const N: usize, P: Pad>(
     let mut env = Env::<N, P>::new(1000);
     let mut all_ops: Vec<&Op> = vec![op];
     if op.is_mutator() {
-        all_ops.extend(FOLLOW.iter());
+        all_ops.extend(FOLLOW.iter().take(if ctx.args.flag("lean") { 2 } else { 5 }));
     }
     for (si, o) in all_ops.iter().enumerate() {
         let before_next = ledger_next_id();
-        let mon = if si == 0 { MonCfg::FULL } else { MonCfg::LIGHT };
+        let mon = if si == 0 && !ctx.args.flag("lean") { MonCfg::FULL } else if si == 0 { MonCfg::LEAN } else { MonCfg::LIGHT };
         let out = step(&mut h, &mut model, o, &mut env, ctx, &mon, None, None);
         for (j, a) in env.arg_ids.iter().enumerate() {
             lab.map.entry(a.0).or_insert_with(|| format!("a{}.{}", si, j));
@@ -135,6 +135,8 @@ fn run_variant<const N: usize, P: Pad>(
 pub fn nonint<const N: usize, P: Pad>(ctx: &mut Ctx) {
     let thorough = ctx.args.thorough;
     let poke_on = !ctx.args.flag("nopoke");
+    let lean = ctx.args.flag("lean");
+    let mut lean_ctr = 0u64;
     let routes: Vec<u8> = ctx.args.list("routes", &[0, 1, 2, 3, 4]).iter().map(|&x| x as u8).collect();
     let fillings: Vec<Filling> = if poke_on { FILLINGS.to_vec() } else { vec![Filling::Natural] };
     let starts = if N == 0 { 1 } else { N };
@@ -152,11 +154,28 @@ pub fn nonint<const N: usize, P: Pad>(ctx: &mut Ctx) {
             }
         }
         for op in ops.iter() {
-            let opd = format!("{:?}", op);
-            let key = hash64(&format!("nonint|{}|{}|{}|{}", N, P::NAME, len, opd));
-            if !ctx.mine(key) {
+            if ctx.args.flag("noforget") && matches!(op, Op::Drain(_, _, End::Forget)) {
                 continue;
             }
+            lean_ctr += 1;
+            if lean {
+                // the sanitizer is the oracle: thin out the documented-panic cases (unwinding is very
+                // slow there)
+                let invalid = match op {
+                    Op::RangeCollect(r) | Op::RangeMutCollect(r) | Op::Drain(r, _, _) => crate::model::resolve_range(*r, len).is_none(),
+                    Op::Index(i) | Op::Write(MutView::IndexMut, i, _) => *i >= len,
+                    Op::Swap(i, j) => *i >= len || *j >= len,
+                    _ => false,
+                };
+                if invalid && lean_ctr % 16 != 0 {
+                    continue;
+                }
+            }
+            if !ctx.mine_next() {
+                continue;
+            }
+            let opd = format!("{:?}", op);
+            let key = hash64(&format!("nonint|{}|{}|{}|{}", N, P::NAME, len, opd));
             let mut reference: Option<(Vec<String>, String)> = None;
             for start in 0..starts {
                 for &route in &routes {
@@ -212,10 +231,10 @@ pub fn nonint<const N: usize, P: Pad>(ctx: &mut Ctx) {
         // the owning iterator over every variant (touches only live elements, whatever the garbage)
         for start in 0..starts {
             for &filling in &fillings {
-                let key = hash64(&format!("nonint-into|{}|{}|{}|{}|{:?}", N, P::NAME, len, start, filling));
-                if !ctx.mine(key) {
+                if !ctx.mine_next() {
                     continue;
                 }
+                let key = hash64(&format!("nonint-into|{}|{}|{}|{}|{:?}", N, P::NAME, len, start, filling));
                 if !ctx.begin_case(|| format!("nonint N={} T={} len={} into_iter start={} filling={:?}", N, P::NAME, len, start, filling)) {
                     continue;
                 }
